@@ -171,6 +171,7 @@ theorem simplify_sat_aux (env : Env) (rd : Reader) (hrd : ReaderOk env rd)
     exact sat_bin_congr env k a _ b _ (simplify_sat_aux env rd hrd hidx a hc.1.1)
       (simplify_sat_aux env rd hrd hidx b hc.1.2) d hd
   | .const _ _, _, _, _ => rfl
+  | .opq _ _, _, _, _ => rfl
 theorem simplifyList_sat_aux (env : Env) (rd : Reader) (hrd : ReaderOk env rd)
     (hidx : ∀ d ∈ env.index, d.Plain) :
     ∀ (qs : List Q), cleanSList env.multi env.bracket rd qs = true → ∀ d ∈ env.index,
